@@ -31,7 +31,7 @@ theorem project_eq_ok (S : Spec) (ns : List ℕ) (hd : ns.length = S.shape.lengt
   cases S.folded <;> simp
 
 theorem projectAxes_folded (ms ns : List ℕ) (O : Spec) (h : O.folded = false) : (Spec.projectAxes O ms ns).folded = false := by
-  unfold Spec.projectAxes
+  rw [projectAxes_eq_range]
   generalize List.range ms.length = ks
   induction ks generalizing O with
   | nil => exact h
